@@ -122,6 +122,26 @@ func c16CheckOrdered(c *Ctx, mods []string, engine bool) rules.CosmeticOption {
 				bad(fmt.Sprintf("Engine.MatchRequest (referrer %q)", src), g)
 			}
 		}
+		// the same exception written with an un-anchored pattern, on an engine that has answered a
+		// host-name request for the site and a request for another page before the document is asked for
+		text2 := strings.Replace(text, "@@||example.org^", "@@example.org*/embed/", 1)
+		if _, err := rules.NewNetworkRule(text2, 1); err == nil {
+			for _, before := range [][]*rules.Request{nil, {rules.NewRequestForHostname("example.org")}, {rules.NewRequest("http://example.org/other", "", rules.TypeDocument), rules.NewRequestForHostname("example.org")}} {
+				e2 := urlfilter.NewEngine(stringStorage(text2 + "\n"))
+				for _, q := range before {
+					e2.MatchRequest(q)
+				}
+				res := e2.MatchRequest(rules.NewRequest("https://example.org/video/embed/", "", rules.TypeDocument))
+				c.Run.Add("evaluations", 1)
+				if res.BasicRule == nil || res.BasicRule.RuleText != text2 {
+					text = text2
+					bad(fmt.Sprintf("Engine.MatchRequest after %d earlier requests on the engine did not select the exception as basic rule", len(before)), 0)
+				} else if g := res.GetCosmeticOption(); g != exp {
+					text = text2
+					bad(fmt.Sprintf("Engine.MatchRequest after %d earlier requests on the engine", len(before)), g)
+				}
+			}
+		}
 	}
 	return got
 }
